@@ -78,6 +78,7 @@ type Enc struct {
 	firstRound bool
 	keptInv    map[loopKey][]*Clause
 	candByLoop map[loopKey][]*Clause
+	faultPoints []string
 }
 
 func newEnc(P *Program, U *Universe, fn *ssa.Function) *Enc {
@@ -196,7 +197,13 @@ func (e *Enc) havoc(st *State, fams map[string]Sort, all bool) {
 	if all {
 		e.nfresh++
 		st.epoch = e.nfresh + 1000
-		st.heap = map[string]Term{}
+		nh := map[string]Term{}
+		for k, v := range st.heap {
+			if strings.HasPrefix(k, "L.") {
+				nh[k] = v // private locals are out of reach of any callee
+			}
+		}
+		st.heap = nh
 		na := e.declare("alloc", SInt)
 		e.assume(ge(na, st.alloc), na.S)
 		st.alloc = na
